@@ -29,40 +29,40 @@ package common
 
 //@ func NewTranscript
 //@ props C14
-//@ prelude bytes
+//@ prelude bytes bytesmonoid
 //@ ensures fresh(result) && validTr(result) && tr(result) == strbytes(label)
 
 //@ func Transcript.AppendMessage
 //@ props C14
-//@ prelude bytes
+//@ prelude bytes bytesmonoid
 //@ requires validTr(t)
-//@ ensures tr(t) == cat(old(tr(t)), cat(bseq(label), bseq(message)))
+//@ ensures tr(t) == cat(cat(old(tr(t)), bseq(label)), bseq(message))
 //@ modifies *(t.buff)
 
 //@ func Transcript.DomainSep
 //@ props C14
-//@ prelude bytes
+//@ prelude bytes bytesmonoid
 //@ requires validTr(t)
 //@ ensures tr(t) == cat(old(tr(t)), bseq(label))
 //@ modifies *(t.buff)
 
 //@ func Transcript.AppendScalar
 //@ props C14
-//@ prelude bytes field bytesint
+//@ prelude bytes bytesmonoid field bytesint
 //@ requires validTr(t)
-//@ ensures tr(t) == cat(old(tr(t)), cat(bseq(label), frle(*scalar)))
+//@ ensures tr(t) == cat(cat(old(tr(t)), bseq(label)), frle(*scalar))
 //@ modifies *(t.buff)
 
 //@ func Transcript.AppendPoint
 //@ props C14
-//@ prelude bytes field curve bytesint
+//@ prelude bytes bytesmonoid field curve bytesint
 //@ requires validTr(t)
-//@ ensures tr(t) == cat(old(tr(t)), cat(bseq(label), encp(point.inner.X, point.inner.Y, point.inner.Z)))
+//@ ensures tr(t) == cat(cat(old(tr(t)), bseq(label)), encp(point.inner.X, point.inner.Y, point.inner.Z))
 //@ modifies *(t.buff)
 
 //@ func Transcript.ChallengeScalar
 //@ props C14
-//@ prelude bytes field bytesint bytesbridge frint
+//@ prelude bytes bytesmonoid field bytesint bytesbridge frint
 //@ requires validTr(t)
 //@ ensures result == fr_of_int(le_int(sha256(cat(old(tr(t)), bseq(label)))) % R_MOD)
 //@ ensures tr(t) == cat(bseq(label), frle(result))
